@@ -148,3 +148,21 @@ PROPS["C19"] = dict(
     not_covered=["worker death in the middle of the sweep", "the stale-id SQL query and DB clock",
                  "interleavings of several sweeping workers (reduced to the CAS contract)"],
 )
+
+PROPS["C15"] = dict(
+    modules=[], bounded=["bounded.hv_lattice"], level="exploration",
+    technique="bounded stand-in only: run-time check of the kernels' contracts against exact oracles on an exhaustively "
+              "enumerated integer lattice (no deductive proof within reach for numpy kernels)",
+    claim="BOUNDED ONLY (nothing about C15 is proved): the contracts compute_hypervolume == exact dominated volume, "
+          "_fast_non_domination_rank == front peeling (constrained variant included), _is_pareto_front == non-dominated "
+          "mask, _solve_hssp returns k distinct members with HV >= (1-1/e) optimum, checked at run time against independent "
+          "exact oracles for EVERY multiset of lattice points inside the stated bound (float arithmetic is exact on the lattice).",
+    note="numpy-vectorised kernels are outside the VC generator's reach (np.unique, maximum.accumulate, fancy indexing); "
+         "inside the bound the check is exhaustive and exact, outside it nothing is claimed",
+    assumptions=["numpy semantics are whatever the installed numpy does (the real kernels are executed)",
+                 "assume_pareto=True is exercised only on genuinely Pareto, duplicate-free inputs (its documented "
+                 "precondition); the docstring's claim that a wrongly given flag does not change the result is FALSE "
+                 "for tied first coordinates (observation, not part of C15's statement)"],
+    not_covered=["point sets outside the lattice bound, dimensions 4-5, non-integer coordinates"],
+)
+PROPS["C12"]["bounded"] = ["bounded.hv_lattice"]
